@@ -37,7 +37,7 @@ prop("C04", "other",
      "decode failure never re-enters the loop. Decides every structural clause; nothing numeric is involved "
      "(the 2^-31 id collision is outside any technique).",
      [("C04.accept", c04.accept), ("C04.check", c04.pdu_check), ("C04.skip", c04.skip_loop),
-      ("C04.single", c04.single_id), ("C04.report", c04.report_only_v3), ("C04.version", c04.version_check), ("C04.adopt", v3.adopt)])
+      ("C04.single", c04.single_id), ("C04.report", c04.report_only_v3), ("C04.version", c04.version_check), ("C04.adopt", v3.adopt), ("C04.retry", py.timeouts)])
 
 # properties not claimed (with the reason); kept current by hand
 NOT_APPLICABLE = {}
@@ -51,7 +51,7 @@ prop("C07", "other",
      "(18 variants) against the documented classes and the create_exception! base classes; Python AST: every blocking "
      "socket call of the sync client maps BlockingIOError to TimeoutError. Every cell of the tables is decided; what is "
      "not decided is the identity of the Python objects pyo3 builds from the decoded values (see C02).",
-     [("C07.get", c07.get_table), ("C07.many", c07.many_table), ("C07.exc", c07.exc_table), ("C07.py", py.blocking_wrapped), ("C07.report", c04.pdu_check), ("C07.sib", crypto.sockets_sibling)])
+     [("C07.get", c07.get_table), ("C07.many", c07.many_table), ("C07.exc", c07.exc_table), ("C07.py", py.blocking_wrapped), ("C07.report", c04.pdu_check), ("C07.sib", crypto.sockets_sibling), ("C07.reject", c04.only_listed_rejections), ("C07.async", py.timeouts)])
 
 from .rules import c06  # noqa: E402
 
@@ -96,7 +96,7 @@ prop("C10", "other",
      "privacy is configured (C10.priv); a failed decrypt never delivers and decrypt receives this message's data and USM "
      "(C10.dec). The first three mechanisms are absent from the code: they are recorded as known findings (a repair needs "
      "the raw datagram in unwrap_pdu and changes the SnmpSocket trait). MAC byte equality itself is not decided.",
-     [("C10", v3.c10), ("C10.accept", c04.accept), ("C10.check", c04.pdu_check), ("C10.version", c04.version_check)])
+     [("C10", v3.c10), ("C10.accept", c04.accept), ("C10.check", c04.pdu_check), ("C10.version", c04.version_check), ("C10.py", py.refresh_flow)])
 
 prop("C18", "other",
      "Mechanism premises only (wall-clock behaviour is NOT decided): get_socket arms SO_RCVTIMEO with "
@@ -177,7 +177,7 @@ prop("C08", "other",
      "group of every arm proven within 1..127 (0..127 for one octet) from the engine's cast facts; parse errors propagate, two "
      "arcs mandatory; every panic site of both conversions discharged; OID text enters only through this conversion and a "
      "failure returns before the send. NOT decided: print(parse(s)) = s and the base-128 arithmetic of rewritten encoders.",
-     [("C08.text", codec.oid_text), ("C08.entry", codec.oid_entry), ("C08.sites", numrules.c08_sites), ("C08.print", codec.oid_print)])
+     [("C08.text", codec.oid_text), ("C08.entry", codec.oid_entry), ("C08.sites", numrules.c08_sites), ("C08.print", codec.oid_print), ("C08.reject", codec.oid_text_rejections), ("C08.handlen", crypto.hand_lengths)])
 
 prop("C15", "other",
      "Necessary conditions only (round-trip equality over all i64 / OIDs is NOT decided): no undischarged overflow, negation or "
@@ -238,7 +238,7 @@ prop("C03", "other",
      "undischarged panic site on the send path.",
      [("C03.fresh", crypto.fresh_buffers), ("C03.priv-fresh", crypto.priv_fresh), ("C03.op", crypto.op_tables), ("C03.pdu", codec.pdu_tags),
       ("C03.cred", v3.cred), ("C03.priv", v3.priv_choice), ("C03.reqid", c04.single_id), ("C03.len", codec.length_forms), ("C03.sib", crypto.sockets_sibling),
-      ("C03.keys", v3.keys), ("C03.fetch", py.fetch), ("C03.version", py_version_default), ("C03.nested", crypto.nested_lengths), ("C03.mirror", crypto.layout_mirror), ("C03.nopanic", numrules.c03_nopanic), ("C03.adopt", v3.adopt), ("C03.msgflags", crypto.msg_flags)])
+      ("C03.keys", v3.keys), ("C03.fetch", py.fetch), ("C03.version", py_version_default), ("C03.nested", crypto.nested_lengths), ("C03.mirror", crypto.layout_mirror), ("C03.nopanic", numrules.c03_nopanic), ("C03.adopt", v3.adopt), ("C03.msgflags", crypto.msg_flags), ("C03.oidenc", codec.oid_text), ("C03.handlen", crypto.hand_lengths)])
 
 prop("C17", "proof",
      "Abstract interpretation (`num`): the type invariant pos <= MAX_SIZE of Buffer is assumed at every read of pos and proved at "
@@ -260,7 +260,7 @@ prop("C09", "other",
      "data[offset..offset+SS] = d2[0..SS]; the two key installers refresh the same fields and sign reads only refreshed state; "
      "engine id / keys consistency rules of C13.",
      [("C09.order", crypto.sign_order), ("C09.const", crypto.hmac_consts), ("C09.shape", crypto.hmac_shape), ("C09.flag", v3.cred),
-      ("C09.keys", v3.keys), ("C09.adopt", v3.adopt), ("C09.accept", c04.accept), ("C09.msgflags", crypto.msg_flags)])
+      ("C09.keys", v3.keys), ("C09.adopt", v3.adopt), ("C09.accept", c04.accept), ("C09.msgflags", crypto.msg_flags), ("C09.dispatch", crypto.key_dispatch), ("C09.py", py.refresh_flow)])
 
 prop("C11", "other",
      "Ciphertext correctness is NOT decided. Decided: both ciphers reset their private buffer before every use (history "
